@@ -619,6 +619,12 @@ class Fn:
             return None
         if not p["proj"]:
             return self.value_of_local(p["local"], depth)
+        # `.0` of a checked-arithmetic tuple is the arithmetic result
+        if len(p["proj"]) == 1 and p["proj"][0]["k"] == "field" and p["proj"][0].get("idx") == 0:
+            v = self.value_of_local(p["local"], depth)
+            if v.get("k") == "rv" and v["rv"]["k"] == "binop" and \
+                    v["rv"]["op"].endswith("WithOverflow"):
+                return v
         # deref of a reference to a single-def local / promoted
         if len(p["proj"]) == 1 and p["proj"][0]["k"] == "deref":
             v = self.value_of_local(p["local"], depth)
